@@ -36,6 +36,10 @@ pub struct SchedConvCase {
     /// who writes with write_all / io::copy
     #[serde(default)]
     pub intr: u8,
+    /// C11: the handler of this request answers through the raw writer and, having written and
+    /// flushed the whole response, keeps the writer until the successor has been delivered
+    #[serde(default)]
+    pub hold_writer: Option<usize>,
     pub tape: Vec<u8>,
 }
 
@@ -201,6 +205,7 @@ pub fn run_sched_conv(sc: &SchedConvCase) -> SchedObs {
             let client3 = client.clone();
             let collect_first = sc.collect_first && gi == 0;
             let hold_after_read = sc.hold_after_read;
+            let sc_hold_writer = sc.hold_writer;
             let (late3, due3, heads3, client5) = (late2.clone(), due.clone(), heads0.clone(), client.clone());
             let enter_order = sc.enter_order.clone();
             handlers.push(shuttle::thread::spawn(move || {
@@ -270,7 +275,17 @@ pub fn run_sched_conv(sc: &SchedConvCase) -> SchedObs {
                         es4.lock().unwrap().push(idx);
                         s4.cv.notify_all();
                     };
-                    interp::handle_with(rq, &prog, "00000000", 0, &sink3, &before);
+                    let s5 = s3.clone();
+                    let hold_writer = sc_hold_writer;
+                    let held = move || {
+                        if hold_writer == Some(idx) {
+                            let mut st = s5.st.lock().unwrap();
+                            while idx + 1 < st.slots.len() && !st.arrived[idx + 1] && !st.conn_done {
+                                st = s5.cv.wait(st).unwrap();
+                            }
+                        }
+                    };
+                    interp::handle_with2(rq, &prog, "00000000", 0, &sink3, &before, &held);
                     // the finishing action has returned: the response (and all earlier ones) is
                     // with the client, whoever else still holds a request of this connection
                     if let Some(want) = due3.get(idx).copied().flatten() {
@@ -422,7 +437,7 @@ pub fn c01_strategy() -> BoxedStrategy<SchedConvCase> {
             let groups = partition_groups(n, mask);
             let own_tasks = groups.len() == n;
             let script = vec![Step::Send { from: 0, to: 0 }, Step::HalfClose];
-            SchedConvCase { case: ConvCase { conv, progs, script, transport: Transport::Mem }, groups, collect_first: false, enter_order: if own_tasks { order } else { None }, cuts, hold_after_read: None, feed: None, intr: if tape.len() % 4 == 3 { 2 + (tape.len() % 3) as u8 } else { 0 }, tape }
+            SchedConvCase { case: ConvCase { conv, progs, script, transport: Transport::Mem }, groups, collect_first: false, enter_order: if own_tasks { order } else { None }, cuts, hold_after_read: None, feed: None, intr: if tape.len() % 4 == 3 { 2 + (tape.len() % 3) as u8 } else { 0 }, hold_writer: None, tape }
         })
         .boxed()
 }
@@ -536,7 +551,7 @@ pub fn c11_strategy() -> BoxedStrategy<SchedConvCase> {
                     // read the streamed body to its end, keep the request, take the successor
                     let mut groups: Vec<Vec<usize>> = vec![(0..=p).collect()];
                     groups.push((p + 1..n).collect());
-                    SchedConvCase { case, groups, collect_first: false, enter_order: None, cuts, hold_after_read: Some(p), feed: None, intr: 0, tape }
+                    SchedConvCase { case, groups, collect_first: false, enter_order: None, cuts, hold_after_read: Some(p), feed: None, intr: 0, hold_writer: None, tape }
                 }
                 (Some(p), 2) if p + 1 < n => {
                     // answer the streamed one (its handler reads the body), successors follow: plain pipeline on two tasks;
@@ -551,8 +566,16 @@ pub fn c11_strategy() -> BoxedStrategy<SchedConvCase> {
                             case.progs[p].finish = Finish::Drop;
                         }
                     }
+                    // ... or answered in full through the raw writer, which the handler then keeps until
+                    // the successor has been delivered
+                    let mut hold_writer = None;
+                    if rk & 0x40 == 0 && rk & 0x08 != 0 {
+                        case.progs[p].read = ReadPlan::None;
+                        case.progs[p].finish = Finish::Writer { body_len: 40, cuts: vec![], flush_mask: 0, zero_writes: false, how: rk & 3 };
+                        hold_writer = Some(p);
+                    }
                     let groups: Vec<Vec<usize>> = vec![(0..=p).collect(), (p + 1..n).collect()];
-                    SchedConvCase { case, groups, collect_first: false, enter_order: None, cuts, hold_after_read: None, feed: None, intr: 0, tape }
+                    SchedConvCase { case, groups, collect_first: false, enter_order: None, cuts, hold_after_read: None, feed: None, intr: 0, hold_writer, tape }
                 }
                 _ => {
                     // collect `avail` requests before answering any
@@ -560,7 +583,7 @@ pub fn c11_strategy() -> BoxedStrategy<SchedConvCase> {
                     if avail < n {
                         groups.push((avail..n).collect());
                     }
-                    SchedConvCase { case, groups, collect_first: true, enter_order: None, cuts, hold_after_read: None, feed: None, intr: 0, tape }
+                    SchedConvCase { case, groups, collect_first: true, enter_order: None, cuts, hold_after_read: None, feed: None, intr: 0, hold_writer: None, tape }
                 }
             }
         })
